@@ -1,5 +1,58 @@
 package main
 
-// tablesMore: tables of the other areas (filled in as the models grow)
+import (
+	"go/ast"
+	"strings"
+)
+
+// tablesMore: tables of the other areas
 func tablesMore(repo string, out *Out, put func(area, name string, v any), fail func(string)) {
+	// ---------- middleware (E15): wrap order of SetupGlobalMiddleware ----------
+	mf := parse(repo, "internal/frontend/middleware/global.go")
+	if fd := findFunc(mf, "", "SetupGlobalMiddleware"); fd != nil {
+		var rows [][]string
+		var walk func(stmts []ast.Stmt, cond string)
+		walk = func(stmts []ast.Stmt, cond string) {
+			for _, st := range stmts {
+				switch s := st.(type) {
+				case *ast.AssignStmt:
+					if len(s.Lhs) == 1 && src(s.Lhs[0]) == "next" && len(s.Rhs) == 1 {
+						rows = append(rows, []string{callHead(s.Rhs[0]), cond})
+					}
+				case *ast.IfStmt:
+					walk(s.Body.List, src(s.Cond))
+					if s.Else != nil {
+						if b, ok := s.Else.(*ast.BlockStmt); ok {
+							walk(b.List, "!("+src(s.Cond)+")")
+						}
+					}
+				}
+			}
+		}
+		walk(fd.Body.List, "")
+		put("Auth", "wrapOrder", rows)
+	} else {
+		fail("SetupGlobalMiddleware")
+	}
+	bf := parse(repo, "internal/frontend/middleware/basic_auth.go")
+	if fd := findFunc(bf, "", "skipBasicAuth"); fd != nil {
+		put("Auth", "skipBasicCond", stmtsSrc(fd.Body.List))
+	} else {
+		fail("skipBasicAuth")
+	}
+}
+
+// callHead: the function name of `f(...)(next)` or `f(next)`
+func callHead(e ast.Expr) string {
+	for {
+		c, ok := e.(*ast.CallExpr)
+		if !ok {
+			return strings.TrimSpace(src(e))
+		}
+		if _, inner := c.Fun.(*ast.CallExpr); inner {
+			e = c.Fun
+			continue
+		}
+		return src(c.Fun)
+	}
 }
